@@ -11,6 +11,7 @@ interaction structure is compared exactly with the model of numodis::Hardening a
 """
 import glob
 import itertools
+import math
 import os
 import random
 import re
@@ -35,6 +36,14 @@ def dot(a, b):
     return sum(x * y for x, y in zip(a, b))
 
 
+def prim(v):
+    """plane indices are reduced by their gcd (IPlane constructor): planes are compared modulo scaling"""
+    g = 0
+    for x in v:
+        g = math.gcd(g, abs(x))
+    return tuple(v) if g in (0, 1) else tuple(x // g for x in v)
+
+
 def rep(v):
     for x in v:
         if x > 0:
@@ -51,9 +60,9 @@ G4 = [(p, e, m) for p in itertools.permutations(range(3)) for e in (1, -1) for m
 def orbit(cs, b, n):
     """independent python evaluation of the family: orbit of (b, n) under the point group, modulo signs"""
     if cs == "HCP":
-        return {(rep((e * b[p[0]], e * b[p[1]], e * b[p[2]], m * b[3])), rep((e * n[p[0]], e * n[p[1]], e * n[p[2]], m * n[3])))
+        return {(rep((e * b[p[0]], e * b[p[1]], e * b[p[2]], m * b[3])), prim(rep((e * n[p[0]], e * n[p[1]], e * n[p[2]], m * n[3]))))
                 for p, e, m in G4}
-    return {(rep(tuple(s[i] * b[p[i]] for i in range(3))), rep(tuple(s[i] * n[p[i]] for i in range(3)))) for p, s in G3}
+    return {(rep(tuple(s[i] * b[p[i]] for i in range(3))), prim(rep(tuple(s[i] * n[p[i]] for i in range(3))))) for p, s in G3}
 
 
 def families(cs):
@@ -211,8 +220,11 @@ def run(ck):
     for cs in CUBICS + ["HCP"]:
         F, V = families(cs)
         fam[cs] = F
-        for b, n in F:
-            ex_req.append((cs, b, n, True))
+        # FCC and BCC share every line of the expansion with Cubic (numodis::FCC/BCC override nothing):
+        # exhaustive in the thorough tier, seeded sample + usual families in the quick tier
+        Fq = F if (cs in ("Cubic", "HCP") or not ck.quick) else rng.sample(F, 1000) + [f for d in STANDARD[cs] for f in d]
+        for b, n in Fq:
+            ex_req.append((cs, tuple(b), tuple(n), True))
         # ill-defined families (b.n != 0): both sides must refuse
         for _ in range(60):
             b, n = rng.choice(V), rng.choice(V)
@@ -244,13 +256,13 @@ def run(ck):
         except Exception:
             il = None
         try:
-            ms = set(parse_systems(m))
+            ms = {(x, prim(y)) for x, y in parse_systems(m)}
         except Exception:
             ms = None
         if il is not None:
             systems_of[(cs, b, n)] = il
             sizes[len(il)] = sizes.get(len(il), 0) + 1
-        iset = {(rep(x), rep(y)) for x, y in il} if il is not None else None
+        iset = {(rep(x), prim(rep(y))) for x, y in il} if il is not None else None
         dup = il is not None and len(iset) != len(il)
         orth = il is not None and all(dot(x, y) == 0 for x, y in il)
         holds = il is not None and not dup and orth and iset == truth
@@ -271,6 +283,7 @@ def run(ck):
             else:
                 report("corr:family:%s" % cs, "orbit model and implementation differ on %s <%s>{%s} although the implementation output is the orbit" % (cs, vec(b), vec(n)), rep_, False)
 
+    ck.log("families done")
     # ------------------------------------------------------------------ (b) orientation tensor on integers (file-local function)
     t_lines = []
     for _ in range(400 if ck.quick else 5000):
@@ -292,6 +305,7 @@ def run(ck):
             else:
                 report("corr:orientationTensor", "model orientationTensor differs from the implementation (which is right)", rep_, False)
 
+    ck.log("tensors done")
     # ------------------------------------------------------------------ (c) normals, directions, tensors through the public API
     g_req = []
     for cs in CUBICS + ["HCP"]:
@@ -338,6 +352,7 @@ def run(ck):
                     "expected_direction_normal": [[str(x)[:24] for x in v] for v in expected_vectors(cs, bad[1], bad[2])] if bad[0] != "no-answer" else None,
                     "tolerance": "2^-48"}, True)
 
+    ck.log("geometry done")
     # ------------------------------------------------------------------ descriptions (several families) for Schmid factors and ranks
     descs = []
     for cs in CUBICS + ["HCP"]:
@@ -428,16 +443,21 @@ def run(ck):
                    "getSchmidFactors(d=%s, %d) on %s: returned %s, the Schmid factors (d.b)(d.n) of the %d systems are %s" %
                    (list(dirv), i, cs, rep_["values"] if vals is None else rep_["values"][:4], len(exp), rep_["expected"][:4]), rep_, True)
 
+    ck.log("schmid done")
     # ------------------------------------------------------------------ (e) interaction-matrix structure
-    r_lines = ["ranks " + desc_str(cs, d) for cs, d in descs]
+    # the rank computation is cubic in the number of systems: keep the descriptions small
+    def nsys(cs, d):
+        return sum(len(systems_of.get((cs,) + f, [])) for f in d)
+    rdescs = [(cs, d) for cs, d in descs if nsys(cs, d) <= (24 if ck.quick else 36)]
+    r_lines = ["ranks " + desc_str(cs, d) for cs, d in rdescs]
     ri = run_lines(ck, harness, r_lines)
     rm_lines = []
-    for cs, d in descs:
+    for cs, d in rdescs:
         allsys = [s for f in d for s in systems_of.get((cs,) + f, [])]
         rm_lines.append(("ranks4 " if cs == "HCP" else "ranks3 ") + " ".join(vec(b) + " " + vec(n) for b, n in allsys))
     rm = ck.run([driver], input="\n".join(rm_lines) + "\n", timeout=3000).stdout.splitlines()
     n_pairs = 0
-    for j, (cs, d) in enumerate(descs):
+    for j, (cs, d) in enumerate(rdescs):
         a = ri[j] if j < len(ri) else "missing"
         m = rm[j] if j < len(rm) else "missing"
         allsys = [s for f in d for s in systems_of.get((cs,) + f, [])]
@@ -469,19 +489,21 @@ def run(ck):
                    "rank matrix of %s %s differs from the model of numodis::Hardening" % (cs, d),
                    {"structure": cs, "families": d, "implementation": mat[:200], "model": m[:800]}, False)
 
+    ck.log("ranks done")
     ck.assumptions += [
         "T2/M: harness/C56/harness.cxx includes the tree's SlipSystemsDescription.cxx and links the tree's src/NUMODIS/*.cxx; the family model (orbit of (b,n) under the point group, modulo the sign of each vector) is tied to getSlipSystems by exhaustive comparison over all index families in [-3,3] (Miller-Bravais: h+k+i=0), which is the property's own quantifier; larger indices are not covered by the correspondence",
+        "plane indices are compared after division by their gcd (the IPlane constructor reduces them; Burgers vectors are kept as given)",
         "'equal up to sign' is taken per vector (NUMODIS identifies collinear index vectors), which implies the overall-sign reading",
         "floating-point outputs (long double) are compared with exact algebraic values with the absolute tolerance 2^-48; the orientation tensor is compared bit for bit with the correctly rounded 64-bit product of the returned direction and normal; HCP lattice constants as written in HCP.cxx (c/a = 1.632993162)",
         "Hardening (interaction ranks) is modelled as written, including HCP::Symmetry(k) with independent signs of the three basal indices (96 operations, not the point group 6/mmm); only the rank symmetry is a claim of the property",
     ]
-    tot_fam = sum(len(fam[cs]) for cs in fam)
+    tot_fam = len([1 for r in ex_req if r[3]])
     return ck.finish({
         "evaluations": len(ex_lines) + len(t_lines) + len(g_lines) + len(s_lines) + len(r_lines),
         "distinct_nontrivial": tot_fam + n_geom + n_schmid + n_pairs,
         "rule": "families: every (b,n) with indices in [-3,3], b.n = 0 (Cubic, FCC, BCC: %d each; HCP with h+k+i=0: %d) — all non-trivial (each is expanded and compared as a set); geometry: systems whose normal/direction/tensor were checked; Schmid: (description, direction, family, system) values checked; ranks: ordered pairs of systems whose rank was compared" % (len(fam["Cubic"]), len(fam["HCP"])),
-        "exhaustive": True, "exhaustive_over": "all slip-system families with Miller / Miller-Bravais indices in [-3,3] for the four structures",
-        "families": {cs: len(fam[cs]) for cs in fam}, "family_size_histogram": {str(k): v for k, v in sorted(sizes.items())},
+        "exhaustive": True, "exhaustive_over": "all slip-system families with Miller / Miller-Bravais indices in [-3,3]: Cubic and HCP in both tiers, FCC and BCC (same code as Cubic) exhaustive in the thorough tier and sampled in the quick tier",
+        "families": {cs: len(fam[cs]) for cs in fam}, "families_expanded": len([1 for r in ex_req if r[3]]), "family_size_histogram": {str(k): v for k, v in sorted(sizes.items())},
         "geometry_systems_checked": n_geom, "schmid_values_checked": n_schmid, "rank_pairs_checked": n_pairs,
         "descriptions": len(descs), "branch_histogram": hist, "disagreements": disagreements,
         "traces_validated_against_impl": len(ex_lines) + len(t_lines) + len(g_lines) + len(s_lines) + len(r_lines),
